@@ -3,6 +3,7 @@ package object
 import (
 	"fmt"
 	"io"
+	"math"
 	"slices"
 	"sort"
 	"strings"
@@ -446,7 +447,15 @@ func sameConstant(a, b Object) bool {
 	if !Equals(a, b) {
 		return false
 	}
-	switch a.Type() { //nolint:exhaustive // only the containers need more than Equals.
+	switch a.Type() { //nolint:exhaustive // only these need more than Equals.
+	case FLOAT:
+		// 0.0 == -0.0 but 1/x tells them apart.
+		return math.Signbit(a.(Float).Value) == math.Signbit(b.(Float).Value)
+	case FUNC:
+		// Equals only compares the text: closures of different calls (func mk(n) {x => x + n}) are different values.
+		fa, oka := a.(Function)
+		fb, okb := b.(Function)
+		return oka && okb && fa.Env == fb.Env
 	case ARRAY:
 		ea, eb := Elements(a), Elements(b)
 		for i := range ea {
